@@ -264,6 +264,7 @@ def unit_frame(U):
         def replay(m, name=name):
             return _native_frame(name)
         npaths = 0
+        gave_up = []
         for p in U.explore(run, it, max_paths=3000):
             npaths += 1
             conn = p.ctx.stash.get("conn")
@@ -271,9 +272,14 @@ def unit_frame(U):
             writes = [c for c in cls if c.kind not in ("select", "noeffect")]
             commits = [e for e in p.ctx.effects if e[0] == "commit"]
             if p.ctx.stash.get("undecided") and not writes and not commits:
-                raise Undecided(p.ctx.stash["undecided"])
+                # this path is cut where the engine gave up; the remaining paths (e.g. the ones that leave a loop earlier) are
+                # still explored - a write on any of them decides the clause - and the unit is undecided only at the end
+                gave_up.append(p.ctx.stash["undecided"])
+                continue
             U.prove("C19.frame.%s#p%d" % (name, p.index), "%s issues only SELECT statements and never commits (features, relations, directives, dialect, stored counters unchanged)" % name,
                     [], z3.BoolVal(not writes and not commits), {}, replay=replay)
+        if gave_up and not U.failed:
+            raise Undecided(gave_up[0])
 
 
 def _native_frame(name):
